@@ -212,6 +212,14 @@ func c09Case(t *T) {
 				v, ok := c.Get(rux.CTXRecoverResult)
 				rec.Extra["recovered"] = v
 				rec.Extra["recovered_ok"] = ok
+				if nest := c.Req.Header.Get("X-Hook-Nest"); nest != "" {
+					// another request is served by the same router while the hook is still working
+					parts := strings.SplitN(nest, "|", 2)
+					nrec, _, npan := Serve(c.Router(), NewReq(parts[0], parts[1]))
+					rec.Extra["hook_nested_rec"] = nrec
+					rec.Extra["hook_nested_panicked"] = npan
+					rec.Extra["hook_nested_same_ctx"] = nrec.CtxPtr != nil && nrec.CtxPtr == c
+				}
 				switch kind {
 				case "status":
 					c.SetStatus(500)
@@ -293,6 +301,12 @@ func c09Case(t *T) {
 		if phase == "post" {
 			t.Count("panic.after_next", 1)
 		}
+	}
+	var hookNested *c09Req
+	if hookKind != "absent" && chance(r, 1, 3) {
+		nq := pick(r, reqs)
+		hookNested = &nq
+		hdr["X-Hook-Nest"] = nq.Method + "|" + nq.Path
 	}
 	plan = []string{"request: " + q.String(), fmt.Sprintf("headers: %v", hdr)}
 	histDesc = append(histDesc, "PANIC "+q.String())
@@ -379,6 +393,20 @@ func c09Case(t *T) {
 			}
 			if afterPanic && ev != "hook" {
 				t.Fail("handler-ran-after-panic", "events after the panic: %v (%v)", rec.Events, plan)
+				return
+			}
+		}
+		// a request served during the hook got its own context and behaves as on a fresh twin
+		if hookNested != nil {
+			t.Count("hook.request_served_during_hook", 1)
+			nrec, _ := rec.Extra["hook_nested_rec"].(*Rec)
+			if same, _ := rec.Extra["hook_nested_same_ctx"].(bool); same {
+				t.Fail("context-released-before-hook-finished", "request %s was served while the OnPanic hook of %s was still running and was handed the very same *Context (%v)", *hookNested, q, plan)
+				return
+			}
+			trec, _, tp := send(twin, *hookNested, nil)
+			if np, _ := rec.Extra["hook_nested_panicked"].(bool); nrec == nil || np != tp || nrec.Outcome() != trec.Outcome() {
+				t.Fail("request-during-hook-differs", "request %s served while the OnPanic hook of %s was running differs from a fresh twin:\n during hook: %s\n twin: %s", *hookNested, q, outcomeOf(nrec), trec.Outcome())
 				return
 			}
 		}
